@@ -12,8 +12,15 @@ MODEL_LOGICS = ["QF_BOOL", "QF_UF", "QF_LRA", "QF_LIA", "QF_RDL", "QF_IDL", "QF_
 NONINT_LOGICS = ["QF_BOOL", "QF_UF", "QF_LRA", "QF_RDL", "QF_UFLRA", "QF_UFRDL", "QF_AX"]
 ITP_LOGICS = ["QF_BOOL", "QF_UF", "QF_LRA", "QF_LIA"]
 
+# the thorough tier explores THOROUGH_SCALE times the nominal thorough sizes (nominal = 20 x quick); 0.3 keeps every
+# thorough check under about half an hour on 16 cores; VERIF_THOROUGH_SCALE=1 gives the full nominal sizes
+THOROUGH_SCALE = float(os.environ.get("VERIF_THOROUGH_SCALE", "0.3"))
 def N(tier, q, t):
-    return q if tier == "quick" else t
+    if tier == "quick":
+        return q
+    if isinstance(t, int) and isinstance(q, int) and t > 4 * q:
+        return max(q, int(t * THOROUGH_SCALE))
+    return t
 
 def seeds(seed, pid, n):
     r = random.Random("%s/%s" % (seed, pid))
@@ -92,6 +99,7 @@ COMBO_LOGICS = ["QF_UFLRA", "QF_UFLIA", "QF_ALIA", "QF_AUFLIA", "QF_UFLRA", "QF_
 PLANS["C01"] = {
     "jobs": lambda seed, tier: spread(seed, "C01", N(tier, 130, 2600), ALL_LOGICS, "answers") +
                                spread(seed, "C01i", N(tier, 30, 600), COMBO_LOGICS, "answers", mode="interface") +
+                               spread(seed, "C01d", N(tier, 40, 800), ["QF_IDL", "QF_RDL", "QF_IDL", "QF_RDL", "QF_UFIDL"], "answers", mode="cnf", nnum=5, maxconst=2, n_atoms=10) +
                                spread(seed, "C01b", N(tier, 26, 600), ALL_LOGICS, "answers", more_cfgs=["la", "ghost"]),
     "rule": "random incremental scripts over all supported logic families; the kernel (TLC) evaluates candidate models "
             "(from z3, from the solver's own get-model, from its grid) of the active assertions at every check-sat; "
@@ -103,7 +111,8 @@ PLANS["C02"] = {
     "jobs": lambda seed, tier: spread(seed, "C02", N(tier, 150, 3000),
                                       ["QF_BOOL", "QF_LIA", "QF_IDL", "QF_LIA", "QF_BOOL", "QF_IDL", "QF_UF", "QF_LRA", "QF_UFLIA",
                                        "QF_RDL", "QF_ALIA", "QF_AX", "QF_UFLRA"], "answers", n_assert=6) +
-                               spread(seed, "C02i", N(tier, 60, 1200), COMBO_LOGICS, "answers", mode="interface"),
+                               spread(seed, "C02i", N(tier, 60, 1200), COMBO_LOGICS, "answers", mode="interface") +
+                               spread(seed, "C02d", N(tier, 40, 800), ["QF_IDL", "QF_RDL", "QF_IDL", "QF_RDL", "QF_UFIDL"], "answers", mode="cnf", nnum=5, maxconst=2, n_atoms=10),
     "rule": "as C01; refutations by the kernel: exhaustive grid for propositional and boxed-integer scripts, "
             "congruence closure / Fourier-Motzkin / Bellman-Ford refutations where implemented; sat answers are also "
             "checked by evaluating the printed model (C03 monitor)",
@@ -134,7 +143,11 @@ PLANS["C04"] = {
 PLANS["C05"] = {
     "jobs": lambda seed, tier: spread(seed, "C05", N(tier, 70, 1500), ALL_LOGICS, "configs",
                                       cfgs=["seed", "la", "picky", "ghost", "proofs", "cores", "nosubst", "luby0", "rf1",
-                                            "ccmin0", "noinc", "embed", "itp", "models"][: N(tier, 14, 14)]),
+                                            "ccmin0", "noinc", "embed", "itp", "models"][: N(tier, 14, 14)]) +
+                               # dense difference-logic clause sets over five variables: the graph-based solver of QF_IDL/QF_RDL
+                               # against the simplex solver of the embedding logic
+                               spread(seed, "C05d", N(tier, 50, 1000), ["QF_IDL", "QF_RDL"], "configs", mode="cnf", nnum=5, maxconst=2, n_atoms=10,
+                                      cfgs=["embed", "seed", "cores", "proofs"]),
     "rule": "one script under up to 15 configurations (engines, seeds, tracking, preprocessing, restarts, logic embedding); "
             "memo keyed by the Active set across runs; contradicting definitive answers are violations",
 }
@@ -179,7 +192,11 @@ PLANS["C08"] = {
             "vectors, push/pop histories; non-trivial = interpolants were printed",
 }
 PLANS["C09"] = {
-    "jobs": lambda seed, tier: itp_jobs(seed, "C09", N(tier, 120, 2400), 3) + itp_jobs(seed, "C09b", N(tier, 20, 400), 4),
+    "jobs": lambda seed, tier: itp_jobs(seed, "C09", N(tier, 120, 2400), 3) + itp_jobs(seed, "C09b", N(tier, 20, 400), 4) +
+                               # proof-sensitive labelling (algorithms 3, 4, 5) on propositional structure with many named clauses
+                               [dict(j, itp_opts=[(":interpolation-bool-algorithm", str([3, 5, 3, 5, 4][i % 5]))], n_named=7, n_atoms=4, splits=3,
+                                     logic=["QF_BOOL", "QF_UF", "QF_BOOL", "QF_LRA"][i % 4], groups=[3, 3, 4][i % 3])
+                                for i, j in enumerate(spread(seed, "C09p", N(tier, 70, 1400), ["QF_BOOL"], "itp"))],
     "rule": "as C08 with 3 or 4 ordered groups; every interpolant is checked as a Craig interpolant of prefix versus rest and "
             "every consecutive pair for the path property",
 }
@@ -221,7 +238,7 @@ PLANS["C21"] = {
 
 PLANS["C20"] = {
     "jobs": lambda seed, tier: spread(seed, "C20", N(tier, 110, 2000), ALL_LOGICS, "pipe") +
-                               spread(seed, "C20e", N(tier, 20, 400), ["QF_BOOL", "QF_LRA", "QF_UF"], "pipe", escapes=True, all_chunks=True),
+                               spread(seed, "C20e", N(tier, 40, 800), ["QF_BOOL", "QF_LRA", "QF_UF"], "pipe", escapes=True, all_chunks=True),
     "per_batch": 10,
     "rule": "scripts with symbols that need quoting (parentheses, semicolons, quotes inside |..|), echo strings containing "
             "parentheses / semicolons / bars / escapes, comments with unbalanced parentheses and quotes, odd line breaks; "
@@ -247,7 +264,9 @@ PLANS["C29"] = {
 PLANS["C30"] = {
     "jobs": lambda seed, tier: spread(seed, "C30", N(tier, 60, 1200), NONINT_LOGICS, "configs",
                                       cfgs=["la", "picky", "ghost", "proofs", "cores", "itp", "seed", "nosubst", "rf1"], timeout=20) +
-                               spread(seed, "C30i", N(tier, 40, 800), NONINT_LOGICS, "incremental"),
+                               spread(seed, "C30i", N(tier, 40, 800), NONINT_LOGICS, "incremental") +
+                               spread(seed, "C30d", N(tier, 40, 800), ["QF_RDL", "QF_UFRDL", "QF_LRA", "QF_RDL"], "configs", mode="cnf", maxconst=1,
+                                      cfgs=["proofs", "cores", "seed", "itp"], timeout=20),
     "rule": "every check-sat of the non-integer script space under all engines and tracking options and in push/pop histories "
             "must answer within 20 s (the default engine answers these instances in milliseconds)",
 }
@@ -272,7 +291,9 @@ def engine_jobs(seed, pid, n, logics, cfgsets, **kw):
 PLANS["C11"] = {
     "module": "Engine_Trace",
     "jobs": lambda seed, tier: engine_jobs(seed, "C11", N(tier, 150, 3000), THEORY_LOGICS,
-                                           [["c0"], ["c0", "la"], ["ghost"], ["picky"], ["proofs"], ["seed"]], need="tcl"),
+                                           [["c0"], ["c0", "la"], ["ghost"], ["picky"], ["proofs"], ["seed"]], need="tcl") +
+                               engine_jobs(seed, "C11d", N(tier, 60, 1200), ["QF_IDL", "QF_RDL", "QF_IDL", "QF_RDL", "QF_LRA", "QF_UF"],
+                                           [["c0"], ["proofs"], ["cores"]], need="tcl", modes=["cnf"], nnum=5, maxconst=2, n_atoms=12, ratio=2.2),
     "rule": "every theory clause (conflict, explanation of a propagation, split, root-level deduction) of runs over the theory "
             "logics and engines; the kernel evaluates candidate models of the negated clause; non-trivial = the run produced a theory clause",
 }
@@ -313,7 +334,8 @@ def driver_build(flavours=("rel",)):
     return True
 PLANS["C14"] = {
     "module": "Terms_Trace", "pre": lambda: driver_build(),
-    "jobs": lambda seed, tier: spread(seed, "C14", N(tier, 60, 1200), ["ALL"], "terms", size=N(tier, 70, 90)),
+    "jobs": lambda seed, tier: spread(seed, "C14", N(tier, 60, 1200), ["ALL"], "terms", size=N(tier, 70, 90)) +
+                               spread(seed, "C14d", N(tier, 8, 160), ["ALL"], "terms", size=N(tier, 50, 70), burst="distinct"),
     "mc": [{"module": "MC_TermStore"}],
     "per_batch": 4,
     "rule": "sequences of constructor calls of depth <= 3 over Bool/Int/Real/U/Array variables and constants (zero, one, minus one, "
@@ -361,6 +383,7 @@ PLANS["C25"] = {
     "pre": lambda: driver_build(("rel", "tsan")),
     "flavours": ["rel", "tsan"],
     "jobs": lambda seed, tier: spread(seed, "C25", N(tier, 36, 400), ["QF_BOOL", "QF_UF", "QF_LRA", "QF_LIA", "QF_IDL", "QF_UFLRA"], "stop", max_k=N(tier, 25, 60)) +
+                               spread(seed, "C25i", N(tier, 16, 200), ["QF_LIA", "QF_UFLIA", "QF_LIA", "QF_ALIA"], "stop", max_k=N(tier, 40, 80), mode="integrality", ratio=1.0) +
                                spread(seed, "C25t", N(tier, 10, 150), ["QF_BOOL", "QF_LRA", "QF_UF", "QF_LIA"], "stop", max_k=2, threads=N(tier, 6, 15), flavour="tsan"),
     "mc": [{"module": "MC_Stop"}],
     "remap": lambda v: "C25" if (v.get("kind") == "stop" and v.get("p") in ("C01", "C02", "C04", "C05", "C18")) else v.get("p"),
